@@ -126,8 +126,8 @@ CORE = [
     "bnd.0:?:6,bnd.1:0:?,cst.eq.1.0.1.1:?", "lb.0:?,ub.1:?,cst.le.-1.0.-1.1:?", "bnd.0:1:?,bnd.1:?:4,cst.eq.-2.0.3.1:1",
     # assignments and arithmetic
     "bnd.0:?:?,asg.1.2.0:?", "bnd.0:?:?,asg.0.-1.0:?", "bnd.0:?:?,bnd.1:0:3,asg2.0.2.0.-1.1:?", "cst.le.1.0.-1.1:?,asg.0.1.0:?",
-    "cst.le.1.0.-1.1:?,asg.1.1.0:?,cst1.le.1.1:?", "bnd.0:?:?,bnd.1:1:?,ari.mul.0.0.1", "bnd.0:?:?,bnd.1:?:-1,ari.sdiv.0.0.1",
-    "bnd.0:?:?,arik.sdiv.1.0:?", "bnd.0:?:?,arik.srem.1.0:?", "bnd.0:0:?,bnd.1:1:?,ari.udiv.0.0.1", "bnd.0:?:?,arik.mul.0.0:?",
+    "cst.le.1.0.-1.1:?,asg.1.1.0:?,cst1.le.1.1:?", "bnd.0:?:?,bnd.1:1:3,ari.mul.0.0.1", "bnd.0:?:?,bnd.1:-3:-1,ari.sdiv.0.0.1",
+    "bnd.0:?:?,arik.sdiv.1.0:-2", "bnd.0:?:?,arik.srem.1.0:3", "bnd.0:0:?,bnd.1:1:?,ari.udiv.0.0.1", "bnd.0:?:?,arik.mul.0.0:?",
     "bnd.0:?:?,bnd.1:0:2,ari.ashr.0.0.1", "bnd.0:?:?,arik.shl.1.0:?", "bnd.0:?:9,bnd.1:?:7,ari.and.0.0.1", "bnd.0:0:9,bnd.1:?:12,ari.xor.0.0.1",
     "bnd.0:?:11,bnd.1:?:6,ari.or.1.0.1", "bnd.0:?:?,arik.lshr.1.0:?",
     "bnd.0:?:?,bnd.1:?:3,sel.0.le.1.0.1:?", "cst.le.1.0.-1.1:?,sel.1.ne.0.0.1:?",
@@ -147,3 +147,27 @@ CORE = [
 
 def core(nsym_cap=4):
     return list(CORE)
+
+
+def limit_sym(seq, n, rng):
+    """keep only the last n symbolic constants of a history; earlier ones get small concrete values"""
+    ops = seq.split(",")
+    total = sum(o.count("?") for o in ops)
+    drop = max(0, total - n)
+    out = []
+    for o in ops:
+        parts = o.split(":")
+        lo = None
+        for i in range(1, len(parts)):
+            if parts[i] == "?" and drop > 0:
+                drop -= 1
+                if opname(o) == "bnd" and i == 1:
+                    lo = rng.randint(-3, 2)
+                    parts[i] = str(lo)
+                elif opname(o) == "bnd" and i == 2:
+                    base = lo if lo is not None else (int(parts[1]) if parts[1] not in ("?",) else -1)
+                    parts[i] = str(base + rng.randint(1, 5))
+                else:
+                    parts[i] = str(rng.randint(-2, 4))
+        out.append(":".join(parts))
+    return ",".join(out)
